@@ -9,6 +9,8 @@ from ..core import FUNC, call_attr, calls_in, const, dotted, is_const, kwarg, no
 from .c01 import _fmt_in
 
 EXPLANATION = [
+    'C02.message-size: no websocket transport passes the websockets library a max_size below 65540 (type byte + 4-byte header + 0xFFFF data bytes): a maximum-length packet is never rejected by the carrier.',
+    "C02.splitter-subclasses: the USB per-endpoint splitters (subclasses of PacketSplitter) define nothing but __init__: the framing is the base class's feed for every endpoint.",
     "C02.reader-cancel: the asynchronous reader's next_packet() (several reads per packet, no state kept across calls) is awaited directly at every call site, never under wait_for / a cancelling wrapper.",
     'C02.threadsafe: every scheduling call onto the event loop in the USB transports (whose callbacks run on the libusb / pyusb thread) is call_soon_threadsafe.',
     'C02.reset-callers: the framing state of PacketParser (the fields reset() assigns) is reset or written only by __init__ and feed_data: no other method (set_packet_sink, ...) throws away the position in the stream.',
@@ -329,7 +331,60 @@ def reader_cancel(ctx):
     R.check(n >= 1, rule, 'bumble.transport | next_packet call sites', f'{n} asynchronous call sites', 'no call site found')
 
 
+def splitter_subclasses(ctx):
+    """The per-endpoint splitters differ only in where the length field sits: the framing itself lives in PacketSplitter.feed.
+    A subclass that overrides feed (to skip "padding", say) frames differently from the other framers for some chunking."""
+    R, p = ctx.r, ctx.p
+    rule = 'C02.splitter-subclasses'
+    m = p.modules.get('bumble.transport.usb')
+    if m is None:
+        R.bad(rule, 'bumble.transport.usb', 'anchor missing')
+        return
+    n = 0
+    for c in [x for x in ast.walk(m.tree) if isinstance(x, ast.ClassDef) and any((dotted(b) or '').split('.')[-1] == 'PacketSplitter' for b in x.bases)]:
+        n += 1
+        extra = [f.name for f in c.body if isinstance(f, FUNC) and f.name != '__init__']
+        R.check(not extra, rule, f'bumble.transport.usb.{c.name}', 'only configures the base splitter (length offset / size)', f'{c.name} overrides {extra}: its framing is no longer the base splitter\'s, so some chunkings (a chunk of zero bytes at a packet start, a cut after the first header byte) frame differently from the other framers', f'{m.rel}:{c.lineno}')
+    R.check(n >= 3, rule, 'bumble.transport.usb | PacketSplitter subclasses', f'{n} subclasses', f'only {n} subclasses found')
+
+
+def message_size(ctx):
+    """A websocket transport carries one or more whole HCI packets per message.  A `max_size` given to the websockets library
+    must admit the largest packet: type byte + 4-byte header + 0xFFFF data bytes = 65540 (None = unlimited is fine)."""
+    R, p = ctx.r, ctx.p
+    rule = 'C02.message-size'
+    need = 1 + 4 + 0xFFFF
+    n = 0
+    for mn in ('bumble.transport.ws_server', 'bumble.transport.ws_client'):
+        m = p.modules.get(mn)
+        if m is None:
+            R.bad(rule, mn, 'anchor missing')
+            continue
+        consts = {}
+        for st in m.tree.body:
+            if isinstance(st, ast.Assign) and len(st.targets) == 1 and isinstance(st.targets[0], ast.Name):
+                try:
+                    consts[st.targets[0].id] = eval(compile(ast.Expression(st.value), '<c>', 'eval'), {'__builtins__': {}}, dict(consts))
+                except Exception:
+                    pass
+        for c in [x for x in ast.walk(m.tree) if isinstance(x, ast.Call) and (dotted(x.func) or '').split('.')[-1] in ('serve', 'connect')]:
+            n += 1
+            ms = kwarg(c, 'max_size')
+            if ms is None:
+                R.ok(rule, f'{p.qual_of(c)} | {norm(c.func)}', 'library default (1 MiB) kept', f'{m.rel}:{c.lineno}')
+                continue
+            try:
+                v = eval(compile(ast.Expression(ms), '<c>', 'eval'), {'__builtins__': {}}, dict(consts))
+            except Exception:
+                v = 'unknown'
+            R.check(v is None or (isinstance(v, int) and v >= need), rule, f'{p.qual_of(c)} | max_size={norm(ms)}', f'admits the largest HCI packet ({need} bytes)',
+                    f'max_size={norm(ms)} (= {v}) is below {need}, the size of a maximum-length ACL / ISO packet with its type byte: the library closes the connection on such a message and every later packet of the stream is lost', f'{m.rel}:{c.lineno}')
+    R.check(n >= 2, rule, 'bumble.transport.ws_* | websocket endpoints', f'{n} serve / connect calls', f'only {n} found')
+
+
 RULES = [
+    ('C02.message-size', message_size),
+    ('C02.splitter-subclasses', splitter_subclasses),
     ('C02.reader-cancel', reader_cancel),
     ('C02.threadsafe', threadsafe),
     ('C02.reset-callers', parser_reset_callers),
